@@ -80,6 +80,7 @@ impl Prop for C13 {
         "one run = one (pre-state, source model, chunker settings) executed R times (R=5 quick, 12 thorough) from scratch, each under a different gate-release policy \
          (FIFO, random, starve-one-role, PCT), pariter pool size 1..3 (faked CPU count), pack-size limits from one blob per pack upward, compression; \
          backup kind: snapshot tree id and the set of (type,id) reachable from it must agree across executions; prune kind: the surviving snapshots' reachable sets must agree; \
+         copy kind: two snapshots copied under the policy into a fresh repository with another key: the copies' tree ids and reachable sets must agree across executions; \
          every execution must terminate; every blob of every stored pack must be listed by an index file with the header's type/offset/length; every reachable blob indexed in an unmarked pack. \
          evaluations = executions; non-trivial = model has data and the executions produced >= 2 distinct gate traces; distinct = hash(model, chunker, trace set)"
     }
@@ -104,7 +105,11 @@ impl Prop for C13 {
         let spec = Spec {
             pool,
             subseed,
-            kind: if rng.chance(2, 3) { "backup".into() } else { "prune".into() },
+            kind: match rng.usize(6) {
+                0..=2 => "backup".into(),
+                3 | 4 => "prune".into(),
+                _ => "copy".into(),
+            },
             chunker,
             version: if rng.chance(1, 5) { 1 } else { 2 },
             gen: genp,
@@ -164,7 +169,7 @@ impl Prop for C13 {
             }
             let plan = ReadPlan { frag: vec![0, 4097, 513], eintr_every: 0, gate_reads_every: *rng.pick(&[0usize, 4]) };
             let (mode, pname) = policy_for(&mut rng, i);
-            let trace_start = sim.trace.len();
+            let mut trace_start = sim.trace.len();
             let outcome: Result<(String, Vec<String>), (String, String)> = if s.kind == "backup" {
                 if s.with_prestate {
                     if let r @ (Cmd::Err(_) | Cmd::Panic(_) | Cmd::NoProgress | Cmd::Harness(_)) = sim.backup(&Mode::Free, &m0, 1, &BackupOptions::default(), &plan, "c13") {
@@ -179,6 +184,61 @@ impl Prop for C13 {
                     Cmd::Ok(snap) => Ok((id_hex(&snap.tree), vec![id_hex(&snap.id)])),
                     r => Err((format!("backup-{}", r.class()), r.detail())),
                 })
+            } else if s.kind == "copy" {
+                // copy: two snapshots in a source repository (free-running), copied under the policy into a
+                // fresh destination with its own key and this execution's pack sizes
+                let mut err = None;
+                let mut src_snaps = vec![];
+                for m in [&m0, &m1] {
+                    match sim.backup(&Mode::Free, m, 1, &BackupOptions::default(), &plan, "c13") {
+                        Cmd::Ok(snap) => src_snaps.push((snap, m.clone())),
+                        r => {
+                            err = Some((format!("prestate-backup-{}", r.class()), r.detail()));
+                            break;
+                        }
+                    }
+                    interpose::clock_advance(3_600_000_000_000);
+                }
+                if let Some(e) = err {
+                    Err(e)
+                } else {
+                    let mut dst = Sim::new(s.subseed ^ 0xd57, cfg.clone(), &env.cpus, "c13-dst");
+                    match dst.init() {
+                        Cmd::Ok(()) => {
+                            let (ss, sk, ds, dk) = (sim.store.clone(), sim.key.clone(), dst.store.clone(), dst.key.clone());
+                            let r = dst.run(&mode, move || {
+                                let src = crate::world::repo_open(&ss, 7, &sk)?.to_indexed()?;
+                                let d = crate::world::repo_open(&ds, 1, &dk)?.to_indexed_ids()?;
+                                let snaps = src.get_all_snapshots()?;
+                                let rel = d.relevant_copy_snapshots(|_| true, &snaps)?;
+                                let todo: Vec<rustic_core::repofile::SnapshotFile> = rel.into_iter().filter(|c| c.relevant).map(|c| c.sn).collect();
+                                src.copy(&d, todo.iter())?;
+                                d.get_all_snapshots()
+                            });
+                            match r {
+                                Cmd::Ok(listed) => {
+                                    let mut ids = vec![];
+                                    for (sn, m) in &src_snaps {
+                                        if let Some(c) = listed.iter().find(|c| c.tree == sn.tree && c.time == sn.time) {
+                                            let _ = dst.snaps.insert(id_hex(&c.id), crate::sim::SnapRec { snap: c.clone(), model: m.clone() });
+                                            ids.push(id_hex(&c.id));
+                                        }
+                                    }
+                                    let r = if ids.len() == src_snaps.len() { Ok(("-".to_string(), ids)) } else { Err(("copy-snapshot-missing-in-destination".to_string(), format!("{} of {} copied snapshots listed", ids.len(), src_snaps.len()))) };
+                                    sim = dst;
+                                    trace_start = 0;
+                                    r
+                                }
+                                r => {
+                                    sim = dst;
+                                    trace_start = 0;
+                                    Err((format!("copy-{}", r.class()), r.detail()))
+                                }
+                            }
+                        }
+                        r => Err((format!("destination-init-{}", r.class()), r.detail())),
+                    }
+                }
             } else {
                 // prune: three snapshots, forget the first, prune under the policy
                 let mut ids = vec![];
@@ -252,7 +312,7 @@ impl Prop for C13 {
                             rep.violation("C13/snapshot-missing", format!("execution {i}: snapshot {sid} not in store"));
                             continue;
                         };
-                        if s.kind == "prune" {
+                        if s.kind != "backup" {
                             trees.push(id_hex(&snap.tree));
                         }
                         match view.reachable(&key, &files, &snap.tree) {
